@@ -11,7 +11,7 @@ EXPLANATION = (
     "react/add_val_to derive from ParsedArg::to_value_os, to_long().1, ShortFlags::next_value_os or RawArgs::remaining with only "
     "to_owned/to_os_string, strip_prefix(\"=\") on the short path (after a value-taking option was found) and "
     "OsStrExt::split(value delimiter) in between; lossy or rewriting transforms (to_string_lossy, to_str->String, trim*, "
-    "replace, case mapping, split_once on the short path, format!) in that slice are violations. R2.5 occurrence grouping "
+    "replace, case mapping, split_once on the short path, format!) in that slice are violations. R2.4b an attached value closes the occurrence (parse_opt_value returns ParseResult::Opt only on the no-attached-value edge). R2.5 occurrence grouping "
     "(each storing arm of react opens exactly one occurrence; ArgMatcher::start_custom_arg opens a value group "
     "unconditionally). R2.6 ValueRange::accepts_more is `current < end_inclusive`; needs_more_vals counts pending values "
     "of the same arg. NOT decided: conservation as an equality between argv and reported values; short-cluster slicing "
@@ -159,6 +159,14 @@ def run(ctx):
     res.check(sets_["parse_long_arg"] == sets_["parse_short_arg"] and (want is None or sets_["parse_long_arg"] == want), "R2.4", "hyphen-value-precedence-siblings", "clap_builder/src/parser/parser.rs",
               "prior hyphen-accepting argument (pending option or positional) takes `--x` and `-x` alike: states %s" % pretty(sets_["parse_long_arg"]),
               "parse_long_arg yields to a prior allow_hyphen_values argument in states %s, parse_short_arg in %s: `--flag` and `-f` are attributed differently after the same prefix" % (pretty(sets_["parse_long_arg"]), pretty(sets_["parse_short_arg"])))
+    # an attached value (`--opt=v`, `-ov`, `-o=v`) closes its occurrence: parse_opt_value keeps the option open (ParseResult::Opt) only without one
+    pov = fx.body("clap_builder::parser::parser::Parser::parse_opt_value")
+    opts_ = [i for i, j, s_ in pov.stmts() if s_["k"] == "assign" and s_["rv"]["k"] == "agg" and s_["rv"].get("variant") == "Opt"]
+    res.floor("R2.4", "ParseResult::Opt results in parse_opt_value", len(opts_), 1)
+    for i in opts_:
+        gl = guard_strs(pov, i)
+        res.check(any(re.match(r"^(!V1:attached_value|V0:attached_value|F:is_some\(attached_value\))$", g) for g in gl), "R2.4", "attached-value-closes-occurrence", "%s bb%d" % (pov.where(), i),
+                  "the option stays open for following tokens only when no value was attached", "parse_opt_value leaves the option open (ParseResult::Opt) although a value was attached (guards %s): tokens after `--opt=v` / `-ov` are swallowed as further values of that option" % [g[:50] for g in gl])
     # no other rewriting of raw_vals in react
     bad = [c for c in rc.calls() if not sp_macro(c.sp) and re.search(FORBID, c.callee_q or "") and not c.is_(r"error::|to_string$")]
     bad = [c for c in bad if not any(re.match(r"^V[5-8]:get_action", g) for g in guard_strs(rc, c.bb))]
